@@ -115,6 +115,18 @@ def canNotify (srv : Server) (f : Facts) (s : St) (a : Nat) : Except Err Unit :=
   | .legacySse => if !s.sessions.contains a then .error .notFound else if !f.sseInitialized then .error .notInitialized else .ok ()
   | .stdio => if a = 0 then .ok () else .error .notFound
 
+/-- does the server know session `a`? (stdio: the one session 0) -/
+def sessionExists (srv : Server) (s : St) (a : Nat) : Bool :=
+  match srv with
+  | .stdio => a == 0
+  | _ => s.sessions.contains a
+
+/-- can a request frame for session `a` be written? (Streamable: its GET stream exists; the others queue it) -/
+def streamOk (srv : Server) (s : St) (a : Nat) : Bool :=
+  match srv with
+  | .streamable _ => hasStream s a
+  | _ => true
+
 def fillP (checkSession : Bool) (key : Key) (p payload : Nat) : List PEntry → List PEntry
   | [] => []
   | e :: es =>
@@ -179,23 +191,19 @@ def step (srv : Server) (f : Facts) (s : St) : Op → St × Ret
     match srv with
     | .streamable true => (s, .err .stateless)
     | _ =>
-      let exists_ := match srv with | .stdio => a = 0 | _ => s.sessions.contains a
-      if !exists_ then (s, .err .notFound) else
-      let id := s.nextId + 1
-      let s1 := { s with nextId := id }         -- the counter is consumed before the stream is looked up
-      let streamOk := match srv with | .streamable _ => hasStream s a | _ => true
-      if !streamOk then (s1, .err .noStream) else
-      match keyOfReq (keyKind srv) (.int (Int.ofNat id)) with
-      | none => (s1, .err .unsupported)
+      if !sessionExists srv s a then (s, .err .notFound) else
+      -- the counter is consumed before the stream is looked up
+      if !streamOk srv s a then ({ s with nextId := s.nextId + 1 }, .err .noStream) else
+      match keyOfReq (keyKind srv) (.int (Int.ofNat (s.nextId + 1))) with
+      | none => ({ s with nextId := s.nextId + 1 }, .err .unsupported)
       | some key =>
-        ({ s1 with pending := s1.pending ++ [⟨key, a, m, none⟩], waiting := s1.waiting ++ [m],
-                   delivered := s1.delivered ++ [(a, ⟨.req, a, m⟩)] }, .issued id)
+        ({ s with nextId := s.nextId + 1, pending := s.pending ++ [⟨key, a, m, none⟩], waiting := s.waiting ++ [m],
+                  delivered := s.delivered ++ [(a, ⟨.req, a, m⟩)] }, .issued (s.nextId + 1))
   | .postAnswer p idw payload =>
     match srv with
     | .streamable true => (s, .posted 202)      -- a throw-away session per POST: nothing is ever pending
     | _ =>
-      let exists_ := match srv with | .stdio => p = 0 | _ => s.sessions.contains p
-      if !exists_ then (s, .posted 404) else
+      if !sessionExists srv s p then (s, .posted 404) else
       match keyOfWire (keyKind srv) idw with
       | none => (s, .posted 202)
       | some key => ({ s with pending := fillP f.answerChecksSession key p payload s.pending }, .posted 202)
